@@ -618,6 +618,44 @@ func runC19(c *eng.Ctx) {
 		}
 	})
 
+	// ---- 8a2. the registration itself calls no stage code once the stage is counted (F47) ------------------------------------------
+	c.Rule("TYPESTATE", smT+".executeStage{no stage code between pending++ and the caller's recover}", func() {
+		g := c.Fn(smT + ".executeStage")
+		incs := c.Some(g, func(p *eng.Prog, in ssa.Instruction) bool {
+			cl, ok := in.(*ssa.Call)
+			if !ok || cl.Common().StaticCallee() == nil || baseName(cl.Common().StaticCallee().Name()) != "Inc" || len(cl.Common().Args) == 0 {
+				return false
+			}
+			return eng.DependsOnField(cl.Common().Args[0], smT+".pending") || strings.HasSuffix(p.Desc(cl.Common().Args[0]), ".pending")
+		}, "sm.pending.Inc()")
+		isStageCall := func(p *eng.Prog, in ssa.Instruction) bool {
+			cl, ok := in.(*ssa.Call)
+			return ok && cl.Common().IsInvoke() && strings.HasSuffix(cl.Common().Value.Type().String(), "stage.Stage")
+		}
+		calls := p.Sites(g, isStageCall)
+		c.Check(len(calls) >= 1, "describes-the-stage", nil, g, "the registration asks the stage to describe itself (Identifier)", fmt.Sprintf("%d calls into the stage", len(calls)))
+		for i, x := range calls {
+			_, after := eng.Reaches(g, incs[0].Instr, []eng.Site{x}, nil)
+			c.Check(!after, fmt.Sprintf("stage-code-before-the-count[%d]", i), x.Instr, g,
+				"every call into the stage made while registering it returns BEFORE the stage is counted as pending: pipeline.executeStage installs the recover that gives a panicking stage's count back only after the registration, so a panic here (Identifier() of the real stages dereferences their shard / segment) would leave the count taken for ever",
+				"reachable after pending.Inc()")
+		}
+		// and the caller installs that recover directly after the registration: nothing in between can panic
+		f := c.Fn(plT + ".executeStage")
+		reg := c.One(f, eng.CallTo(smT+".executeStage"), "sm.executeStage(parent, id, stage)")
+		for i, x := range p.SitesDirect(f, func(p *eng.Prog, in ssa.Instruction) bool { _, ok := in.(ssa.CallInstruction); return ok }) {
+			if _, isDefer := x.Instr.(*ssa.Defer); isDefer || x.Instr == reg.Instr {
+				continue
+			}
+			_, after := eng.Reaches(f, reg.Instr, []eng.Site{x}, nil)
+			if !after {
+				continue
+			}
+			defers := p.SitesDirect(f, func(p *eng.Prog, in ssa.Instruction) bool { _, ok := in.(*ssa.Defer); return ok })
+			c.Check(eng.DominatedBy(f, x.Instr, defers, nil), fmt.Sprintf("nothing-between-count-and-recover[%d]", i), x.Instr, f, "every call after the registration runs under the deferred recover", "reachable without passing the defer")
+		}
+	})
+
 	// ---- 8b. nothing between an operator and the two designated handlers swallows a panic or an error ----------------------------
 	c.Rule("OWNER", "query{recover() only in the designated handlers}", func() {
 		allowed := map[string]bool{plT + ".Execute": true, plT + ".executeStage": true, poolT + ".execTask": true}
